@@ -79,9 +79,16 @@ def events(db, f, summaries=None, depth=0):
     out = []
 
     def resolve_local(t):
-        # a local bound by `for v in X.iter_mut()` or `let v = &mut X` -> X
+        # a local bound by `for v in X.iter_mut()` or `let v = &mut X` -> X ; a closure parameter of `X.as_mut().map(|p| ..)` -> X
         if t and t[0] == "local":
             bd = b.get(t[1])
+            if bd and bd[0] == "closure-param":
+                clo = bd[2]
+                for n2, _ in walk(f.hir):
+                    if n2.get("k") == "MethodCall" and any(a is clo for a in n2["args"]):
+                        r2, row2 = root(n2["recv"])
+                        if r2 and r2 != t:
+                            return resolve_local(r2)
             if bd and bd[0] in ("for", "let", "arm") and bd[1] is not None:
                 r, row = root(bd[1])
                 if r and r != t:
@@ -247,6 +254,11 @@ def scalars(db, ctx):
         ok = any(n.get("k") == "Assign" and peel(n["l"]).get("name") == "state" for n, _ in walk(f.hir))
         ctx.ob("InputBuffer::%s|state" % nm, ok, "InputBuffer::%s assigns self.state: %s" % (nm, ok), fn=f)
     tr = db.one("reset", "StatefulTokenizer")
+    ev = events(db, tr, param_summaries(db))
+    killed = {tgt[2] for kind, tgt, how, node in ev if kind == "kill" and tgt[0] == "field"}
+    ctx.ob("StatefulTokenizer::reset|clears-results", "top_path" in killed,
+           "StatefulTokenizer::reset clears the previous result path (fields killed: %s): analyses that return before the path is rebuilt (empty or "
+           "too-long input) must not hand stale morphemes to the result list" % sorted(killed), fn=tr)
     ok = any(is_call(c) and path_ends(callee(c), "InputBuffer::reset") for c, _ in walk(tr.hir))
     ctx.ob("StatefulTokenizer::reset|input.reset", ok, "StatefulTokenizer::reset resets the input buffer: %s" % ok, fn=tr)
     bl = db.one("build_lattice", "LatticeBuilder")
